@@ -1,6 +1,6 @@
 (* C08 - property theorems only; each is closed by a lemma of Snapshot.v / Silence.v / Fresh.v / Refuted.v.
    `sched` ranges over every interleaving of connection threads (one per connection: receive, dispatcher lock,
-   make_update, send_reply) and driver threads (updateLock, make_update, send_reply per listener) at their
+   updateLock of each module of the snapshot, make_update, send_reply) and driver threads (updateLock, make_update, send_reply per listener) at their
    synchronisation points, `nd` over every node (modules / parameters, exported or hidden), `cs` over every set of
    request scripts (activate / deactivate with global, module, parameter scope, valid or refused, *IDN?, close) on any
    number of connections, `us` over every set of update scripts on any number of driver threads.  A step of a thread
@@ -13,7 +13,7 @@ Require Import FV.Gen.C08 FV.C08.Model FV.C08.Lemmas FV.C08.Snapshot FV.C08.Sile
 Theorem C08_source_facts :
   request_under_dispatcher_lock = true /\ announce_under_update_lock = true /\ announce_update_shape = true /\
   broadcast_listeners_shape = true /\ activate_registers_before_snapshot = true /\
-  snapshot_takes_no_module_lock = true /\ broadcast_takes_no_dispatcher_lock = true /\
+  snapshot_under_module_lock = true /\ broadcast_takes_no_dispatcher_lock = true /\
   subscribe_shape = true /\ unsubscribe_shape = true /\ deactivate_shape = true /\ reset_shape = true /\
   handler_replies_after_dispatch = true.
 Proof. repeat split; reflexivity. Qed.
@@ -51,7 +51,7 @@ Proof. exact broadcast_delivered. Qed.
 Theorem C08_scope_isolation : forall nd s a x b, a <> b ->
   let s' := cstep nd s (TC a, x) in
   logs s' b = logs s b /\ cth s' b = cth s b /\ (forall p, listens s' b p = listens s b p) /\
-  uth s' = uth s /\ cache s' = cache s /\ ulock s' = ulock s /\ bcasts s' = bcasts s.
+  uth s' = uth s /\ cache s' = cache s /\ bcasts s' = bcasts s.
 Proof. exact isolation. Qed.
 
 (* the matching deactivate removes exactly its scope (a module scope also the parameter scopes below it) and leaves
@@ -85,36 +85,39 @@ Theorem C08_silent_after_scope_ended_except_late_update : forall nd s sched c p,
   updates_of p (logs (run_from nd s sched) c) = updates_of p (logs s c).
 Proof. intros nd s sched c p L C W U. apply (silent_forever nd sched s c p). repeat split; auto. Qed.
 
-(* FULL STATEMENT (refuted, see C08_refuted_stale_snapshot): for every schedule, once no broadcast and no snapshot
-   of the connection is in progress, the last update message a listening connection holds for an exported parameter
-   equals the cache.
-   Proved with the exact guard `no_stale_send`: no step of the schedule sends a snapshot message whose value differs
-   from the cache at that moment (the message was overtaken between make_update and send_reply). *)
-Theorem C08_quiescent_fresh_except_stale_snapshot : forall nd cs us sched c p,
-  no_stale_send nd (init cs us) sched ->
+(* ALL schedules (no exception any more: the stale-snapshot defect was repaired by c1c8ab8, the initial updates of a
+   module are built and sent under its updateLock): once no broadcast and no snapshot of the connection is in progress,
+   the last update message a listening connection holds for an exported parameter equals the cache - even when the
+   activation raced with concurrent updates. *)
+Theorem C08_quiescent_fresh : forall nd cs us sched c p,
   let s := run nd cs us sched in
   listens s c p = true -> exported nd p = true ->
   (forall u, upd_idle s u) -> conn_idle s c ->
   last_upd p (logs s c) = Some (cache s p).
 Proof. exact quiescent_fresh. Qed.
 
-(* refutations on the faithful model; the witness schedules are real executions of the pinned code (corpus/C08) *)
-Theorem C08_refuted_stale_snapshot :
-  exists nd cs us sched c p,
-    all_enabled nd (init cs us) sched = true /\
-    let s := run nd cs us sched in
-    listens s c p = true /\ exported nd p = true /\
-    u_pc (uth s 0) = UDone /\ c_pc (cth s c) = CRecv /\ c_script (cth s c) = [] /\
-    logs s c = [EReq (RAct SG false); EUpd p 1; EUpd p 0; ERep (RpActive SG)] /\
-    last_upd p (logs s c) = Some 0 /\ cache s p = 1.
-Proof. exact refuted_stale_snapshot. Qed.
+(* the lock discipline behind it, all schedules: whoever is between make_update and the last send_reply of a module
+   (a driver thread in its broadcast, a connection thread in the initial updates) owns the updateLock of that module,
+   and the message it holds carries the cached value *)
+Theorem C08_update_lock_discipline : forall nd cs us sched,
+  let s := run nd cs us sched in
+  (forall t m, holds s t m -> ulock s m = Some t) /\
+  (forall u p v all pend, u_pc (uth s u) = USend p v all pend -> cache s p = v) /\
+  (forall c sc m i v todo g, c_pc (cth s c) = CSendU sc m i v todo g -> cache s (m, i) = v).
+Proof.
+  intros nd cs us sched s.
+  assert (A : all_inv nd s).
+  { unfold s, run. apply (run_invariant nd (all_inv nd)); [intros; apply all_inv_step; auto | apply all_inv_init]. }
+  destruct A as [L [[V1 V2] _]]. repeat split; auto.
+Qed.
 
+(* refutations on the faithful model; the witness schedules are real executions of the current code (corpus/C08) *)
 Theorem C08_refuted_late_update :
   exists nd cs us sched c p,
     all_enabled nd (init cs us) sched = true /\
     let s := run nd cs us sched in
     listens s c p = false /\
-    logs s c = [EReq (RAct SG false); EUpd p 1; ERep (RpActive SG); EReq (RDeact SG false); ERep RpInactive; EUpd p 1].
+    logs s c = [EReq (RAct SG false); EUpd p 0; ERep (RpActive SG); EReq (RDeact SG false); ERep RpInactive; EUpd p 1].
 Proof. exact refuted_late_update. Qed.
 
 Theorem C08_refuted_late_update_after_disconnect :
@@ -122,7 +125,7 @@ Theorem C08_refuted_late_update_after_disconnect :
     all_enabled nd (init cs us) sched = true /\
     let s := run nd cs us sched in
     c_pc (cth s c) = CDone /\
-    logs s c = [EReq (RAct (SP 0 0) false); EUpd p 1; ERep (RpActive (SP 0 0)); EClose; EUpd p 1].
+    logs s c = [EReq (RAct (SP 0 0) false); EUpd p 0; ERep (RpActive (SP 0 0)); EClose; EUpd p 1].
 Proof. exact refuted_late_update_after_close. Qed.
 
 (* non-vacuity: two connections (global / one parameter), one driver thread; sequential schedule: both snapshots, the
@@ -132,7 +135,7 @@ Example C08_demo :
   let cs := [[RAct SG false; RDeact SG false]; [RAct (SP 0 0) false]] in
   let us := [[((0, 0), 5); ((0, 1), 6)]] in
   let c0 := (TC 0, 0) in let c1 := (TC 1, 0) in
-  let sched := [c0; c0; c0; c0; c0; c0; c1; c1; c1; c1; c1; c1;
+  let sched := [c0; c0; c0; c0; c0; c0; c0; c1; c1; c1; c1; c1; c1; c1;
                 (TU 0, 0); (TU 0, 0); (TU 0, 0); (TU 0, 1); (TU 0, 0); (TU 0, 0); c0; c0; c0] in
   let s := run nd cs us sched in
   all_enabled nd (init cs us) sched = true /\
@@ -150,7 +153,7 @@ Print Assumptions C08_scope_isolation.
 Print Assumptions C08_deactivate_removes_its_scope.
 Print Assumptions C08_ident_and_disconnect_remove_all.
 Print Assumptions C08_silent_after_scope_ended_except_late_update.
-Print Assumptions C08_quiescent_fresh_except_stale_snapshot.
-Print Assumptions C08_refuted_stale_snapshot.
+Print Assumptions C08_quiescent_fresh.
+Print Assumptions C08_update_lock_discipline.
 Print Assumptions C08_refuted_late_update.
 Print Assumptions C08_refuted_late_update_after_disconnect.
